@@ -20,7 +20,14 @@ def main():
             P.regen(None)
         except Exception as e:  # noqa
             print("regen %s: %s" % (pid, e))
-    ok, out = vlib.coq_build(["all"], timeout=3000)
+    targets = []
+    for pid in registry.PROPS:
+        P = importlib.import_module("props." + pid.lower()).PROPERTY
+        P._defaults()
+        for t in P.model_targets + P.proof_targets:
+            if t not in targets:
+                targets.append(t)
+    ok, out = vlib.coq_build(targets, timeout=3000)
     print(out[-3000:])
     if not ok:
         rc = 1
